@@ -351,6 +351,7 @@ func runC10(col *Collector, tier string, seed int64) {
 		}
 	}
 	total := len(vs) + len(as) + len(us)
+	varsOpsCases(col, rng, map[bool]int{false: 300, true: 6000}[tier == "thorough"])
 	for _, taskLevel := range []bool{false, true} {
 		sharedVarCase(col, taskLevel)
 	}
